@@ -1,5 +1,5 @@
 CONSTANTS N = 4
-          Kinds = {"w", "c", "o", "x", "i", "p", "s", "f", "q", "e"}
+          Kinds = {"w", "c", "o", "x", "i", "p", "s", "f", "q", "e", "z"}
 SPECIFICATION Spec
 INVARIANT TypeOK
 INVARIANT Emit
